@@ -474,6 +474,27 @@ func c05Feature(w *core.W, j int) {
 			c05Both(w, r, "/"+field+"/"+ft.name)
 		}
 	}
+	// names of the maximum length (255 octets on the wire): every octet escaped as \DDD (the longest
+	// possible text, 1004 characters), every octet a plain letter, and one octet short of the limit
+	for _, mn := range c05MaxNames() {
+		for _, fi := range targets {
+			r := c05Base(g, l)
+			field := "owner"
+			if fi < 0 {
+				r.Owner = mn.n.Clone()
+			} else {
+				fd := l.Fields[fi]
+				if fd.Kind != model.KName && fd.Kind != model.KCName {
+					continue
+				}
+				field = fd.Go
+				r.Vals[fi] = mn.n.Clone()
+			}
+			r.Fixup()
+			w.Cover("feature", mn.name)
+			c05Both(w, r, "/"+field+"/"+mn.name)
+		}
+	}
 	// boundary values of the non-text fields, one at a time
 	for i, fd := range l.Fields {
 		var vals []any
@@ -517,6 +538,128 @@ func c05Feature(w *core.W, j int) {
 			}
 			c05Both(w, r, fmt.Sprintf("/%s/boundary%d", fd.Go, vi))
 		}
+	}
+}
+
+type c05MaxName struct {
+	name string
+	n    model.Name
+}
+
+func c05MaxNames() []c05MaxName {
+	mk := func(fill func(i int) byte, lens ...int) model.Name {
+		var n model.Name
+		k := 0
+		for _, l := range lens {
+			lab := make([]byte, l)
+			for i := range lab {
+				lab[i] = fill(k)
+				k++
+			}
+			n = append(n, lab)
+		}
+		return n
+	}
+	ctl := func(i int) byte { return byte(1 + i%31) }    // all printed as \DDD
+	hi := func(i int) byte { return byte(0x80 + i%128) } // all printed as \DDD
+	let := func(i int) byte { return byte('a' + i%26) }
+	return []c05MaxName{
+		{"name-255-all-escaped", mk(ctl, 63, 63, 63, 61)},
+		{"name-255-all-escaped-high", mk(hi, 63, 63, 63, 61)},
+		{"name-254-all-escaped", mk(ctl, 63, 63, 63, 60)},
+		{"name-255-letters", mk(let, 63, 63, 63, 61)},
+		{"name-255-one-octet-labels", mk(let, func() []int {
+			x := make([]int, 127)
+			for i := range x {
+				x[i] = 1
+			}
+			return x
+		}()...)},
+	}
+}
+
+// c05Zone: the String() lines of several records, one per line, read back as one zone must give
+// the same records in the same order (no record's parser may eat into the next entry).
+func c05Zone(w *core.W, j int) {
+	ls := textLayouts()
+	g := model.NewGen(w.Rng(j))
+	g.NoHuge = true
+	g.Plain = true
+	g.MaxOpaque = 48
+	// every type is followed by every "successor shape" over the plan: pair (j, j/len) plus random filler
+	n := 2 + g.R.IntN(4)
+	var recs []*model.Rec
+	for k := 0; k < n; k++ {
+		var l *model.Layout
+		switch k {
+		case 0:
+			l = ls[j%len(ls)]
+		case 1:
+			l = ls[(j/len(ls)*7+j)%len(ls)]
+		default:
+			l = ls[g.R.IntN(len(ls))]
+		}
+		r := c05Base(g, l)
+		r.Owner = model.Name{[]byte(fmt.Sprintf("r%d", k)), []byte("example")}
+		recs = append(recs, r)
+	}
+	var text strings.Builder
+	var want [][]byte
+	var types []string
+	for _, r := range recs {
+		rr, _, err := dns.UnpackRR(r.Wire(), 0)
+		if err != nil {
+			return
+		}
+		// each line alone must be readable, otherwise the single-record sections report it
+		if one, err := dns.NewRR(rr.String()); err != nil || one == nil {
+			return
+		}
+		pk, err := packRR(rr)
+		if err != nil {
+			return
+		}
+		want = append(want, pk)
+		types = append(types, r.L.Name)
+		text.WriteString(rr.String())
+		text.WriteString("\n")
+	}
+	w.Eval(1)
+	w.Count("zones", 1)
+	w.NontrivialStr("zone", strings.Join(types, ","))
+	w.Cover("zone_first_type", types[0])
+	wit := map[string]any{"zone": cutS(text.String())}
+	var got [][]byte
+	var perr error
+	if w.Guard("ZoneParser", wit, func() {
+		zp := dns.NewZoneParser(strings.NewReader(text.String()), "", "")
+		for rr, ok := zp.Next(); ok; rr, ok = zp.Next() {
+			pk, err := packRR(rr)
+			if err != nil {
+				pk = []byte("unpackable")
+			}
+			got = append(got, pk)
+		}
+		perr = zp.Err()
+	}) {
+		return
+	}
+	for i := range want {
+		if i >= len(got) {
+			what := "parse-error"
+			if perr == nil {
+				what = "records-missing"
+			}
+			w.Violation("C05/zone-sequence/"+what+"/"+types[i], fmt.Sprintf("a zone made of the String() lines of %d records (%s) stops at record %d (%s): %v\n%s", len(want), strings.Join(types, ","), i, types[i], perr, cutS(text.String())), wit)
+			return
+		}
+		if !bytes.Equal(got[i], want[i]) {
+			w.Violation("C05/zone-sequence/record-differs/"+types[i], fmt.Sprintf("record %d (%s) of a zone made of String() lines reads back differently: %s", i, types[i], diffWin(got[i], want[i])), wit)
+			return
+		}
+	}
+	if len(got) > len(want) || perr != nil {
+		w.Violation("C05/zone-sequence/extra/"+types[len(types)-1], fmt.Sprintf("zone of %d String() lines yields %d records, err=%v", len(want), len(got), perr), wit)
 	}
 }
 
@@ -744,13 +887,14 @@ func init() {
 		section{"features", tiered(nt*4, nt*40), c05Feature},
 		section{"generic", tiered(nt*4, nt*60), c05Generic},
 		section{"random", tiered(6000, 200000), c05Random},
+		section{"zones", tiered(nt*12, nt*nt), c05Zone},
 	)
 	core.Register(&core.Monitor{
 		ID: "C05", Level: "exploration", Plan: plan, Run: run, Terminates: true,
 		Rule: "every type with a presentation format: an otherwise plain record with one of 22 hostile contents (space, tab, quote, backslash, \\DDD-looking digits, trailing backslash, semicolon, parentheses, newline, CR, NUL, DEL, high-bit octets, $ and @, empty, 255 octets, dots, leading digit, #) injected into one text field or the owner at a time; fully random well-formed records; " +
 			"both wire-decoded and struct-built records: String() must be accepted by NewRR with identical header and octet-identical RDATA; an independent RFC 1035 s.5.1 tokenizer must accept the text and, for 56 regular types, read every field value back; " +
-			"RFC 3597 generic form and TYPEnnn/CLASSnnn/mnemonic/lower-case spellings for every type; all 65536 type and class codes in both spellings; non-trivial = distinct record wire",
+			"names of the maximum length (255 octets, all-escaped = 1004 characters) as owner and in every name field; zones made of 2..5 String() lines (every type first, varied successors) read back record for record; RFC 3597 generic form and TYPEnnn/CLASSnnn/mnemonic/lower-case spellings for every type; all 65536 type and class codes in both spellings; non-trivial = distinct record wire",
 		Assumptions: []string{"OPT, TSIG, TKEY, NULL, ANY, NXNAME and RDATA-less records have no presentation format", "TTLs are kept below 2^31 (see C06 for TTL syntax)", "record classes with a C01 known finding are excluded"},
-		MinObserved: []string{"roundtrips", "independent_reads", "generic_forms", "numeric_spellings", "codes"},
+		MinObserved: []string{"roundtrips", "independent_reads", "generic_forms", "numeric_spellings", "codes", "zones"},
 	})
 }
